@@ -5,14 +5,17 @@
    live elsewhere — the theorems say it never does.
      dirs_above s p : every proper prefix of p is a real directory (p is a physical path: the caller names the tree
                       by its real location);        wf s : whatever exists lives in a real directory;
-     under p q      : q is p or lies below p.
+     under p q      : q is p or lies below p;       size_below s p : number of entries at or below p.
    All theorems quantify over EVERY file system (any shape, any decoration with links to files, to directories inside
-   or outside the tree, to ancestors, to nothing, loops), every path, every exclusion predicate (one on base names,
-   used by the listing, one on full paths, used by the removal), every amount of fuel and both states of the context.
-   [remove ... true ...] is the code after the fix (Lstat first). *)
+   or outside the tree, to ancestors, to nothing, loops), every path, every pair of exclusion predicates (one on base
+   names: the listing and the test of nested entries; one on the caller's path: the test of the top entry), both states
+   of the context and, for garbage collection, every age assignment and EVERY order in which the entries of a directory
+   are processed.  [... true ...] is the code after the fix (Lstat first). *)
 From Coq Require Import List ZArith Bool.
 Import ListNotations.
 From GU Require Import C04.Model C04.Proofs.
+
+(* ---- confinement: whatever the fuel, whatever the result ---- *)
 
 (* Rm / RemoveWithContext / RemoveWithContextAndExclusionPatterns / RemoveWithPrivileges (success path):
    every entry that is not at or below p — in particular everything reachable from the tree only through a link —
@@ -20,7 +23,7 @@ From GU Require Import C04.Model C04.Proofs.
 Theorem remove_confined : forall excl_name excl_path cancelled fuel s p,
   dirs_above s p ->
   forall q, ~ under p q ->
-  lookup (fst (remove excl_name excl_path true cancelled fuel s p)) q = lookup s q.
+  lookup (fst (remove_top excl_name excl_path true cancelled fuel s p)) q = lookup s q.
 Proof. exact remove_confined_l. Qed.
 Print Assumptions remove_confined.
 
@@ -32,27 +35,67 @@ Theorem clean_dir_confined : forall excl_name excl_path cancelled fuel s p,
 Proof. exact clean_dir_confined_l. Qed.
 Print Assumptions clean_dir_confined.
 
-(* GarbageCollect...: for every age assignment *)
-Theorem gc_confined : forall cancelled old fuel s root,
+Theorem gc_confined : forall cancelled old ord fuel s root,
   dirs_above s root -> not_link (lookup s root) ->
   forall q, ~ under root q ->
-  lookup (fst (garbage_collect true cancelled old fuel s root)) q = lookup s q.
+  lookup (fst (garbage_collect true cancelled old ord fuel s root)) q = lookup s q.
 Proof. exact gc_confined_l. Qed.
 Print Assumptions gc_confined.
 
-(* success without exclusion patterns: nothing is left at or below p — links (dangling or not) included, since
-   [lookup] does not follow them *)
+(* ---- termination: with Lstat first the recursion only descends into real directories, so fuel bounded by the number
+   of entries at or below p is always enough (EFuel is the model's mark of "did not come back") ---- *)
+
+Theorem remove_terminates : forall excl_name excl_path cancelled fuel s p,
+  dirs_above s p -> size_below s p < fuel ->
+  snd (remove_top excl_name excl_path true cancelled fuel s p) <> Err EFuel.
+Proof. exact remove_terminates_l. Qed.
+Print Assumptions remove_terminates.
+
+Theorem clean_dir_terminates : forall excl_name excl_path cancelled fuel s p,
+  dirs_above s p -> not_link (lookup s p) -> size_below s p < fuel ->
+  snd (clean_dir excl_name excl_path true cancelled fuel s p) <> Err EFuel.
+Proof. exact clean_dir_terminates_l. Qed.
+Print Assumptions clean_dir_terminates.
+
+(* the out-of-fuel mark of a child is propagated (all other errors of children are dropped, as in the code) *)
+Theorem gc_terminates : forall cancelled old ord fuel s root,
+  dirs_above s root -> not_link (lookup s root) -> size_below s root + 1 < fuel ->
+  snd (garbage_collect true cancelled old ord fuel s root) <> Err EFuel.
+Proof. exact gc_terminates_l. Qed.
+Print Assumptions gc_terminates.
+
+(* ---- completeness ---- *)
+
+(* no exclusion, live context, sufficient fuel: the call SUCCEEDS and nothing is left at or below p — links (dangling
+   or not) included, since [lookup] does not follow them.  No premise about the result is needed. *)
+Theorem remove_succeeds_and_is_complete : forall excl_name excl_path fuel s p,
+  (forall n, excl_name n = false) -> (forall q, excl_path q = false) ->
+  wf s -> dirs_above s p -> size_below s p < fuel ->
+  snd (remove_top excl_name excl_path true false fuel s p) = Ok /\
+  forall q, under p q -> lookup (fst (remove_top excl_name excl_path true false fuel s p)) q = None.
+Proof. exact remove_succeeds_l. Qed.
+Print Assumptions remove_succeeds_and_is_complete.
+
+Theorem clean_dir_succeeds_and_is_complete : forall excl_name excl_path fuel s p,
+  (forall n, excl_name n = false) -> (forall q, excl_path q = false) ->
+  wf s -> dirs_above s p -> lookup s p = Some EDir -> size_below s p < fuel ->
+  snd (clean_dir excl_name excl_path true false fuel s p) = Ok /\
+  lookup (fst (clean_dir excl_name excl_path true false fuel s p)) p = Some EDir /\
+  forall q, under p q -> q <> p -> lookup (fst (clean_dir excl_name excl_path true false fuel s p)) q = None.
+Proof. exact clean_dir_succeeds_l. Qed.
+Print Assumptions clean_dir_succeeds_and_is_complete.
+
+(* the conditional form, for any fuel and either state of the context: whenever the call reports success *)
 Theorem remove_complete : forall excl_name excl_path cancelled fuel s p,
   (forall n, excl_name n = false) -> (forall q, excl_path q = false) ->
   wf s -> dirs_above s p ->
-  snd (remove excl_name excl_path true cancelled fuel s p) = Ok ->
-  forall q, under p q -> lookup (fst (remove excl_name excl_path true cancelled fuel s p)) q = None.
+  snd (remove_top excl_name excl_path true cancelled fuel s p) = Ok ->
+  forall q, under p q -> lookup (fst (remove_top excl_name excl_path true cancelled fuel s p)) q = None.
 Proof.
-  intros en ep c fuel s p Hen Hep Hwf Hd Hok. exact (remove_complete_l en ep Hen Hep c fuel s p Hwf Hd Hok).
+  intros en ep c fuel s p Hen Hep Hwf Hd Hok. exact (remove_complete_l en ep Hen Hep c fuel s p p Hwf Hd Hok).
 Qed.
 Print Assumptions remove_complete.
 
-(* CleanDir of a real directory: on success the directory is still there and nothing is left below it *)
 Theorem clean_dir_complete : forall excl_name excl_path cancelled fuel s p,
   (forall n, excl_name n = false) -> (forall q, excl_path q = false) ->
   wf s -> dirs_above s p -> lookup s p = Some EDir ->
@@ -62,29 +105,31 @@ Theorem clean_dir_complete : forall excl_name excl_path cancelled fuel s p,
 Proof. exact clean_dir_complete_l. Qed.
 Print Assumptions clean_dir_complete.
 
-(* an entry whose path matches an exclusion pattern survives unchanged, and all its ancestors are still directories
-   (whatever the call returns; the pass-down of the patterns, defect D11, is modelled as repaired) *)
+(* ---- exclusions (the rule of the D11 repair: caller's path for the top entry, entry name below it) ----
+   [protected]: p itself when the caller's path is excluded; below p, an entry whose own name is excluded or that lies
+   below a directory whose name is excluded.  Such an entry survives unchanged and all its ancestors remain directories,
+   whatever the call returns. *)
 Theorem remove_keeps_excluded : forall excl_name excl_path cancelled fuel s p,
   wf s -> dirs_above s p ->
-  forall q, excl_path q = true -> lookup s q <> None ->
-  survives_with_ancestors s (fst (remove excl_name excl_path true cancelled fuel s p)) q.
+  forall q, protected excl_name excl_path p q -> lookup s q <> None ->
+  survives_with_ancestors s (fst (remove_top excl_name excl_path true cancelled fuel s p)) q.
 Proof. exact remove_keeps_excluded_l. Qed.
 Print Assumptions remove_keeps_excluded.
 
 Theorem clean_dir_keeps_excluded : forall excl_name excl_path cancelled fuel s p,
   wf s -> dirs_above s p -> not_link (lookup s p) ->
-  forall q, excl_path q = true -> lookup s q <> None ->
+  forall q, protected_below excl_name excl_path p q -> lookup s q <> None ->
   survives_with_ancestors s (fst (clean_dir excl_name excl_path true cancelled fuel s p)) q.
 Proof. exact clean_dir_keeps_excluded_l. Qed.
 Print Assumptions clean_dir_keeps_excluded.
 
-(* The code BEFORE the fix (Stat-based tests only) violates both halves of the property; kept as documentation of the
-   repaired defect D10 — the harness replays this witness (tree/sub/lnk -> outside, tree/dangling) on every run. *)
+(* ---- the code BEFORE the fix (Stat-based tests only), kept as documentation of the repaired defect D10; the harness
+   replays these witnesses (tree/sub/lnk -> outside + tree/dangling; tree/a/up -> tree) on every run ---- *)
 Theorem remove_refuted_without_lstat :
   exists s p q, dirs_above s p /\ ~ under p q /\
-    snd (remove noex_n noex_p false false 10 s p) = Ok /\
-    lookup (fst (remove noex_n noex_p false false 10 s p)) q <> lookup s q /\     (* an outside file is deleted *)
-    lookup (fst (remove noex_n noex_p false false 10 s p)) p <> None.              (* and the tree is still there *)
+    snd (remove_top noex_n noex_p false false 10 s p) = Ok /\
+    lookup (fst (remove_top noex_n noex_p false false 10 s p)) q <> lookup s q /\     (* an outside file is deleted *)
+    lookup (fst (remove_top noex_n noex_p false false 10 s p)) p <> None.              (* and the tree is still there *)
 Proof.
   exists witness, [nm 3], [nm 1; nm 2].
   destruct without_lstat_outside_deleted as [H1 [H2 [H3 H4]]].
@@ -93,24 +138,43 @@ Proof.
 Qed.
 Print Assumptions remove_refuted_without_lstat.
 
-(* non-vacuity: on the same tree the repaired code succeeds, removes the tree (dangling link included) and keeps the
-   outside file; with the path-exclusion of tree/sub/lnk the link and its ancestors stay *)
+(* a link to an ancestor: the fuel that remove_terminates proves sufficient for the repaired code — and seven times
+   more — runs out in the old code, which walks tree/a/up/a/up/... (on the OS: until ELOOP; exponentially many calls
+   when the directories have several entries) *)
+Theorem remove_terminates_refuted_without_lstat :
+  exists s p, dirs_above s p /\ size_below s p < 4 /\
+    snd (remove_top noex_n noex_p true false 4 s p) = Ok /\
+    snd (remove_top noex_n noex_p false false 4 s p) = Err EFuel /\
+    snd (remove_top noex_n noex_p false false 30 s p) = Err EFuel.
+Proof.
+  exists loop_witness, [nm 3]. destruct loop_witness_facts as [H0 [H1 [H2 H3]]].
+  split; [exact loop_witness_dirs_above|]. split; [rewrite H0; repeat constructor|]. repeat split; assumption.
+Qed.
+Print Assumptions remove_terminates_refuted_without_lstat.
+
+(* ---- non-vacuity ---- *)
 Example c04_nonvacuous_remove :
-  let r := remove noex_n noex_p true false 10 witness [nm 3] in
+  let r := remove_top noex_n noex_p true false 10 witness [nm 3] in
   snd r = Ok /\ lookup (fst r) [nm 1; nm 2] = Some (EFile 7) /\ lookup (fst r) [nm 3] = None /\
   lookup (fst r) [nm 3; nm 6] = None /\ lookup (fst r) [nm 1] = Some EDir.
 Proof. vm_compute. repeat split; reflexivity. Qed.
 
+(* name-based rule: excluding the NAME of the link keeps it and its ancestors; excluding only the caller's path keeps
+   the (emptied) root and nothing below it *)
 Example c04_nonvacuous_excluded :
-  let ep := fun q : path => path_eqb q [nm 3; nm 4; nm 5] in
-  let r := remove (fun n => name_eqb n (nm 5)) ep true false 10 witness [nm 3] in
+  let r := remove_top (fun n => name_eqb n (nm 5)) (fun q => path_eqb q [nm 5]) true false 10 witness [nm 3] in
   snd r = Ok /\ lookup (fst r) [nm 3; nm 4; nm 5] = Some (ELink [nm 1]) /\ lookup (fst r) [nm 3; nm 4] = Some EDir /\
   lookup (fst r) [nm 3] = Some EDir /\ lookup (fst r) [nm 3; nm 6] = None.
+Proof. vm_compute. repeat split; reflexivity. Qed.
+
+Example c04_nonvacuous_root_excluded :
+  let r := remove_top noex_n (fun q => path_eqb q [nm 3]) true false 10 witness [nm 3] in
+  snd r = Ok /\ lookup (fst r) [nm 3] = Some EDir /\ children (fst r) [nm 3] = [] /\ lookup (fst r) [nm 1; nm 2] = Some (EFile 7).
 Proof. vm_compute. repeat split; reflexivity. Qed.
 
 Example c04_nonvacuous_clean_gc :
   snd (clean_dir noex_n noex_p true false 10 witness [nm 3]) = Ok /\
   children (fst (clean_dir noex_n noex_p true false 10 witness [nm 3])) [nm 3] = [] /\
-  lookup (fst (garbage_collect true false (fun _ => true) 10 witness [nm 3])) [nm 1; nm 2] = Some (EFile 7) /\
-  lookup (fst (garbage_collect false false (fun _ => true) 10 witness [nm 3])) [nm 1; nm 2] = None.
+  lookup (fst (garbage_collect true false (fun _ => true) (fun _ ns => rev ns) 10 witness [nm 3])) [nm 1; nm 2] = Some (EFile 7) /\
+  lookup (fst (garbage_collect false false (fun _ => true) (fun _ ns => ns) 10 witness [nm 3])) [nm 1; nm 2] = None.
 Proof. vm_compute. repeat split; reflexivity. Qed.
